@@ -24,6 +24,12 @@ fn drain_sites() -> (u64, String) {
     (0, "hooks-off".to_string())
 }
 
+/// number of bounds-recorder violations since the last drain (called by the run loop after EVERY op, so that an
+/// out-of-bounds index at one of the 16 unchecked accesses marks the op's line whatever family it belongs to)
+pub fn violations_since_last_drain() -> u64 {
+    drain_sites().0
+}
+
 fn args_for(b: &RoaringBitmap, seed: u64) -> Vec<u32> {
     let mut r = crate::rng::Rng::new(seed, 77);
     let mut v = vec![0u32, 1, 63, 64, 65535, 65536, 65537, u32::MAX, u32::MAX - 1];
